@@ -235,14 +235,15 @@ class Ctx:
         import os
         import signal
         import threading
-        limit = float(os.environ.get('VFW_RUN_WALL_LIMIT', '45'))
+        limit = float(os.environ.get('VFW_RUN_WALL_LIMIT', '60'))
         armed = threading.current_thread() is threading.main_thread() and limit > 0
 
         def _fire(signum, frame):
-            raise SyncHang(f'code under test did not yield to the event loop / finish within {limit:.0f} s of wall time')
+            raise SyncHang(f'code under test did not yield to the event loop / finish within {limit:.0f} s of CPU time')
         if armed:
-            old = signal.signal(signal.SIGALRM, _fire)
-            signal.setitimer(signal.ITIMER_REAL, limit)
+            # CPU time of this process, not wall time: a busy machine must not turn a slow path into a hang verdict
+            old = signal.signal(signal.SIGVTALRM, _fire)
+            signal.setitimer(signal.ITIMER_VIRTUAL, limit)
         try:
             loop.run_until_complete(main_coro)
             return True
@@ -259,8 +260,8 @@ class Ctx:
             return False
         finally:
             if armed:
-                signal.setitimer(signal.ITIMER_REAL, 0)
-                signal.signal(signal.SIGALRM, old)
+                signal.setitimer(signal.ITIMER_VIRTUAL, 0)
+                signal.signal(signal.SIGVTALRM, old)
 
     def teardown(self):
         if self.loop is not None:
